@@ -206,6 +206,23 @@ func (s *Sess) Exec(sql string) Res {
 	return s.ExecStmts(stmts)
 }
 
+// ExecTimeout is Exec under a deadline: when the statement runs longer than d its context is cancelled and
+// TimedOut is reported (a time budget that is hit means "not judged", never a violation).
+func (s *Sess) ExecTimeout(sql string, d time.Duration) (Res, bool) {
+	stmts, _, err := parser.Parse(sql, "", false, s.Tx.Flags.AnsiQuotes)
+	if err != nil {
+		return Res{Err: err, ParseErr: true}, false
+	}
+	ctx, cancel := context.WithTimeout(s.Ctx, d)
+	defer cancel()
+	flow, err := s.Proc.Execute(ctx, stmts)
+	r := Res{Flow: flow, Err: err, Affected: s.Tx.AffectedRows}
+	for _, v := range s.Tx.SelectedViews {
+		r.Views = append(r.Views, FromView(v))
+	}
+	return r, ctx.Err() == context.DeadlineExceeded
+}
+
 // ExecStmts executes parsed statements.
 func (s *Sess) ExecStmts(stmts []parser.Statement) Res {
 	flow, err := s.Proc.Execute(s.Ctx, stmts)
